@@ -319,7 +319,74 @@ pub struct ExpectedMeta {
     pub keyed: std::collections::BTreeMap<(String, String, String), FrameMetadata>,
 }
 
-/// field-by-field comparison (no derived PartialEq of the crate involved above the leaf types)
+/// String-validity monitor for a loaded model: every `String` reachable from it must hold valid UTF-8 (an
+/// invalid one can only come from an unchecked conversion; neither Miri nor ASan reports it by itself).
+/// Returns the place of the first offender.
+pub fn invalid_string_in_model(m: &dlt_core::fibex::FibexMetadata) -> Option<String> {
+    let bad = |s: &str| std::str::from_utf8(s.as_bytes()).is_err();
+    let frame = |f: &FrameMetadata| -> Option<&'static str> {
+        if bad(&f.short_name) {
+            return Some("short_name");
+        }
+        for (o, n) in [(&f.application_id, "application_id"), (&f.context_id, "context_id"), (&f.message_type, "message_type"), (&f.message_info, "message_info")] {
+            if o.as_deref().map_or(false, bad) {
+                return Some(n);
+            }
+        }
+        if f.pdus.iter().any(|p| p.description.as_deref().map_or(false, bad)) {
+            return Some("pdu.description");
+        }
+        None
+    };
+    for (k, f) in &m.frame_map {
+        if bad(k) {
+            return Some("frame_map key".into());
+        }
+        if let Some(w) = frame(f) {
+            return Some(format!("frame_map value: {}", w));
+        }
+    }
+    for (k, f) in &m.frame_map_with_key {
+        if bad(&k.context_id) || bad(&k.app_id) || bad(&k.frame_id) {
+            return Some("frame_map_with_key key".into());
+        }
+        if let Some(w) = frame(f) {
+            return Some(format!("frame_map_with_key value: {}", w));
+        }
+    }
+    None
+}
+
+/// Marks a position of an expected signal-type list about which the property says nothing: the reference
+/// resolves to a type name that exists in FIBEX but lies outside the vocabulary the loader supports today
+/// (S_FLOA16; a CODING whose base data type is e.g. A_BYTEFIELD, A_BITFIELD). The statement quantifies over
+/// "the supported type vocabulary": whether such a signal is skipped (as the pinned code does) or mapped to
+/// some type by a later version is left open, so the slot matches zero or one returned type. The value can
+/// never come out of the loader (reserved string coding 0x7e).
+pub fn open_slot() -> TypeInfo {
+    TypeInfo {
+        kind: TypeInfoKind::Bool,
+        coding: StringCoding::Reserved(0x7e),
+        has_variable_info: true,
+        has_trace_info: true,
+    }
+}
+
+fn is_open_slot(t: &TypeInfo) -> bool {
+    matches!(t.coding, StringCoding::Reserved(0x7e)) && t.has_variable_info && t.has_trace_info
+}
+
+/// `got` against the expected pattern `exp` (open slots match zero or one element)
+pub fn types_match(got: &[TypeInfo], exp: &[TypeInfo]) -> bool {
+    match exp.split_first() {
+        None => got.is_empty(),
+        Some((e, rest)) if is_open_slot(e) => types_match(got, rest) || (!got.is_empty() && types_match(&got[1..], rest)),
+        Some((e, rest)) => !got.is_empty() && format!("{:?}", got[0]) == format!("{:?}", e) && types_match(&got[1..], rest),
+    }
+}
+
+/// field-by-field comparison (no derived PartialEq of the crate involved above the leaf types);
+/// `a` is what the crate returned, `b` the expectation (which may contain open slots)
 pub fn same_frame(a: &FrameMetadata, b: &FrameMetadata) -> bool {
     a.short_name == b.short_name
         && a.application_id == b.application_id
@@ -328,17 +395,23 @@ pub fn same_frame(a: &FrameMetadata, b: &FrameMetadata) -> bool {
         && a.message_info == b.message_info
         && a.pdus.len() == b.pdus.len()
         && a.pdus.iter().zip(&b.pdus).all(|(x, y)| {
-            x.description == y.description && x.signal_types.len() == y.signal_types.len() && x.signal_types.iter().zip(&y.signal_types).all(|(s, t)| format!("{:?}", s) == format!("{:?}", t))
+            x.description == y.description && types_match(&x.signal_types, &y.signal_types)
         })
 }
 
 pub fn expected_metadata(m: &Model, l: &Layout) -> Option<ExpectedMeta> {
     let sigmap: HashMap<&str, &str> = m.signals.iter().map(|(a, b)| (a.as_str(), b.as_str())).collect();
     let codmap: HashMap<&str, &str> = m.codings.iter().map(|(a, b)| (a.as_str(), b.as_str())).collect();
+    // Some(type) demanded; None demanded to be skipped (unknown reference: no such signal, no such coding,
+    // references that never reach a coding); open slot where the name lies outside the supported vocabulary
     let resolve = |s: &str| -> Option<TypeInfo> {
         match std_signal(s) {
-            Some(x) => x,
-            None => sigmap.get(s).and_then(|c| codmap.get(c)).and_then(|b| base_type(b)),
+            Some(Some(t)) => Some(t),
+            Some(None) => Some(open_slot()),
+            None => match sigmap.get(s).and_then(|c| codmap.get(c)) {
+                Some(b) => Some(base_type(b).unwrap_or_else(open_slot)),
+                None => None,
+            },
         }
     };
     let mut pmap: HashMap<String, PduMetadata> = HashMap::new();
